@@ -24,6 +24,7 @@ import subprocess
 import time
 
 from .. import core, build, hrun
+from .. import shim as _shim
 from ..refmodel import pop3_model as pm
 
 PROP = "C19"
@@ -809,7 +810,7 @@ def case_popup(box, res, i):
         sub = [box.pop3d, box.md]
     else:
         sub = ["/bin/true"]
-    argv = [box.popup, host.decode(), os.path.join(core.VERIF, "bin/pw-rec")] + sub
+    argv = [box.popup, host.decode(), _shim.tool("pw-rec")] + sub
     wit = {"case": {"kind": "popup", "index": i}, "argv": argv[1:], "plan": plan, "as_root": as_root,
            "script": [core.hx(s[:200]) for s in script]}
     model = pm.Popup(host)
